@@ -29,6 +29,8 @@ import Verif.Model.Validity
     sshapi op=renew|rekey unow= anow= pnow= g= p= bd= ova= ovb= ct= tls=0|1 -> `ok d= vaoff=0 id=<identity secs> idoff=0` | `rej` | `crash`
     idsign va=<u64> vb=<u64>                          -> `ok id=<unix nb>,<unix na>`
     migrate a=<claims> p=<claims> ssh=0|1             -> as `claims`, for the provisioner reloaded from the admin DB
+    conv dir=c2l2c p=<claims> ssh=nil|0|1 | conv dir=l2c|l2c2l (l=nil | x=<-|X-|Xa/b/c> s=<-|S<0|1>;<u>;<h>>)
+                                                      -> claims after claimsToLinkedca / claimsToCertificates round trips
     chainset | chain fn=<Type.Method> | order fn=<method> -> the Lean tables chainTable / orderTable, rendered
     acme now=<time> def= rnb=<time> rna=<time>        -> `nb=<time> na=<time>` | `rej:500` (order not storable)
     overflow lo=<int> hi=<int> k=<int>                 -> the k-th wrap witness (seconds) for [lo,hi], see below
@@ -103,6 +105,43 @@ def e2eS {α : Type} (f : α → String) : Out α → String
   | .ok a => "ok " ++ f a
   | .rej _ => "rej"
   | .crash => "crash"
+
+def dur3? (t : String) : Option Dur3 :=
+  match (t.splitOn "/").mapM optInt? with
+  | some [a, b, c] => some ⟨a, b, c⟩
+  | _ => none
+
+def optDur3? (t : String) : Option (Option Dur3) := if t = "-" then some none else (dur3? t).map some
+
+def lclaims? (x s : String) : Option LClaims := do
+  let xb ← (if x = "-" then some none
+            else if x.startsWith "X" then (optDur3? (x.drop 1).toString).map some else none)
+  let sb ← (if s = "-" then some none
+            else if s.startsWith "S" then
+              match ((s.drop 1).toString.splitOn ";") with
+              | [e, u, h] => do pure (some (decide (e = "1"), (← optDur3? u), (← optDur3? h)))
+              | _ => none
+            else none)
+  pure { x509 := xb, ssh := sb }
+
+def optS (o : Option Int) : String := match o with | some v => toString v | none => "-"
+def dur3S (d : Dur3) : String := s!"{optS d.min}/{optS d.max}/{optS d.dflt}"
+def optDur3S (d : Option Dur3) : String := match d with | some d => dur3S d | none => "-"
+
+def lclaimsS : Option LClaims → String
+  | none => "l=nil"
+  | some l =>
+    let x := match l.x509 with | none => "-" | some d => "X" ++ optDur3S d
+    let s := match l.ssh with | none => "-" | some (e, u, h) => s!"S{if e then "1" else "0"};{optDur3S u};{optDur3S h}"
+    s!"x={x} s={s}"
+
+def cclaimsS : Option CClaims → String
+  | none => "c=nil"
+  | some c =>
+    let d := c.d
+    let f := ",".intercalate ([d.minTLS, d.maxTLS, d.defTLS, d.minUser, d.maxUser, d.defUser, d.minHost, d.maxHost, d.defHost].map optS)
+    let e := match c.enableSSH with | none => "nil" | some true => "1" | some false => "0"
+    s!"c={f} ssh={e}"
 
 def claimer? (kv : List (String × String)) : Option Claimer := do
   pure ⟨(← full? (← lookup kv "g")), (← claims? (← lookup kv "p"))⟩
@@ -248,6 +287,22 @@ def eval (line : String) : Option String := do
     else match effective a (migrateClaims ssh p) with
       | none => pure "a=ok p=bad"
       | some c => pure s!"a=ok p=ok eff={fullS c.merged}"
+  | "conv" =>
+    let dir ← get "dir"
+    if dir = "bad" then pure "err"   -- a duration string time.ParseDuration refuses: the conversion must fail
+    else if dir = "c2l2c" || dir = "json" then
+      let p ← claims? (← get "p")
+      let e ← get "ssh"
+      let en : Option Bool := if e = "1" then some true else if e = "0" then some false else none
+      let c : Option CClaims := p.map fun d => { d := d, enableSSH := en }
+      -- encoding/json keeps every pointer as it is; the linkedca round trip is toCert ∘ toLinked
+      pure (cclaimsS (if dir = "json" then c else toCert (toLinked c)))
+    else
+      let l ← (if (get "l") = some "nil" then some none
+               else do pure (some (← lclaims? (← get "x") (← get "s"))))
+      if dir = "validate" then pure (if validateLClaims l then "valid" else "invalid")
+      else if dir = "l2c" then pure (cclaimsS (toCert l))
+      else pure (lclaimsS (toLinked (toCert l)))
   | "chainset" => pure (",".intercalate (chainTable.map (·.fn)))
   | "chain" =>
     let fn ← get "fn"
